@@ -7,9 +7,12 @@ def check(ctx, rep):
     rxr.rx_1(ctx, rep, pf.classes)
     rxr.rx_9(ctx, rep)
     rxr.rx_11(ctx, rep)
+    rxr.rx_10(ctx, rep, ['parso/python/tokenize.py', 'parso/python/prefix.py', 'parso/tree.py', 'parso/python/tree.py', 'parso/utils.py'])
     tok.tok_1_2(ctx, rep, pf.acc)
     tok.tok_3(ctx, rep, pf.acc)
+    tok.tok_8(ctx, rep)
     tok.tok_4(ctx, rep)
     tok.tok_5(ctx, rep)
     tok.tok_6(ctx, rep)
+    tok.tok_7(ctx, rep)
     rep.note('Not decided: true positions.')
